@@ -23,7 +23,6 @@ import (
 
 	"verif/core"
 	"verif/seqx"
-	"verif/vos"
 	"verif/vtime"
 )
 
@@ -851,9 +850,7 @@ func runSeq(res *core.Result, http bool, shard, shards int) {
 		delete(verified, k)
 	}
 	sub := seqx.Explore(cfg, res)
-	sub.Bound += fmt.Sprintf(", %d-letter alphabet, first letter partitioned over %d processes", len(cfg.Fresh().(*seqWorld).alpha), shards)
+	sub.Bound += fmt.Sprintf(", %d-letter alphabet, first letter partitioned over %d processes (states are summed over processes: a state reached under several first letters is counted once per process)", len(cfg.Fresh().(*seqWorld).alpha), shards)
 	res.AddSub(sub)
 }
 
-var _ = sort.Strings
-var _ = vos.Stamp
